@@ -545,6 +545,7 @@ def run_check(mod, argv):
         "notes": ctx.notes,
     }
     cov.update(ctx.extra)
+    cov["modelled_source"] = source_drift(prop)
     ev = {
         "property_id": prop, "tier": tier, "seed": seed, "level": "proof",
         "coverage": cov,
@@ -557,6 +558,26 @@ def run_check(mod, argv):
         prop, tier, discharged, obligations, ctx.evaluations, len(ctx.distinct), len(known_hits),
         time.time() - ctx.t0, rc))
     return rc
+
+
+def source_drift(prop):
+    """structural fingerprints of the anchored files against tools/source_lock.json (information for the reader of
+    the evidence: which modelled functions were edited since the model was validated; never a verdict)"""
+    try:
+        sys.path.insert(0, os.path.join(VERIF, "tools"))
+        import source_lock
+        d = source_lock.drift(prop, REPO)
+        n = len(d.get("changed", [])) + len(d.get("added", [])) + len(d.get("removed", []))
+        if n:
+            print("NOTE: %d function(s) of the anchored files differ from the version the model was validated against "
+                  "(%s ...); the verdict comes from the theorems and this run's correspondence" % (
+                      n, ", ".join((d["changed"] + d["added"] + d["removed"])[:3])))
+        return d
+    except Exception as e:  # pylint: disable=broad-except
+        return {"error": repr(e)}
+    finally:
+        if sys.path and sys.path[0].endswith("tools"):
+            sys.path.pop(0)
 
 
 def shrink_case(mod, case, kind, budget=150):
